@@ -797,6 +797,63 @@ Fixpoint after_reset (acc l : list stok) : list stok :=
   return '\n'.join(out)
 
 
+def gen_consts(ctx):
+  """Numeric constants of the arithmetic, as IEEE bit patterns."""
+  out = [HEADER]
+  upath, utree = parse(ctx.root, 'algorithms/uniform_quantize/uniform_quantize_tensor.py')
+  fn = find_func(upath, utree, 'tensor_zp_scale_from_min_max')
+  mb = None
+  for st in ast.walk(fn):
+    if isinstance(st, ast.Assign) and len(st.targets) == 1 and isinstance(
+        st.targets[0], ast.Name) and st.targets[0].id == 'min_bound':
+      if not (isinstance(st.value, ast.Constant) and isinstance(st.value.value, float)):
+        fail(upath, st, 'min_bound is not a float literal')
+      mb = st.value.value
+  if mb is None:
+    fail(upath, fn, 'min_bound not found')
+  sha, consts = fn_shape(fn)
+  out.append(f'(* uniform_quantize_tensor.tensor_zp_scale_from_min_max: min_bound = {mb!r}; body shape {sha} *)')
+  out.append(f'Definition min_bound_f64_bits : Z := {f64_bits(mb)}.')
+  out.append(f'Definition min_bound_f32_bits : Z := {f32_bits(mb)}.')
+  out.append(f'Definition zp_scale_shape : Z := {int(sha, 16)}.')
+  # body shapes (numeric literals abstracted) of the hand-modelled numeric
+  # functions: Props pin them, so an edit to one of these bodies breaks an
+  # obligation even before the bit-exact correspondence runs
+  qpath, qtree = parse(ctx.root, 'transformations/quantize_tensor.py')
+  mpath, mtree = parse(ctx.root, 'algorithms/utils/min_max_quantize_utils.py')
+  for (pth, tr, name) in ((upath, utree, 'uniform_quantize'),
+                          (upath, utree, 'uniform_dequantize'),
+                          (upath, utree, '_round_and_clip'),
+                          (upath, utree, 'assign_quantized_type'),
+                          (upath, utree, 'get_quantized_range'),
+                          (upath, utree, 'symmetric_quantize_bias_tensor'),
+                          (upath, utree, 'fix_quantization_params_rank'),
+                          (qpath, qtree, '_pack_data'),
+                          (mpath, mtree, '_get_min_max_from_quant_params')):
+    f2 = find_func(pth, tr, name)
+    sh, cs = fn_shape(f2)
+    out.append(f'Definition shape_{name.lstrip("_")} : Z := {int(sh, 16)}.  '
+               f'(* literals {cs} *)')
+  cpath, ctree = parse(ctx.root, 'utils/calibration_utils.py')
+  fn = find_func(cpath, ctree, 'moving_average_update')
+  dv = fn.args.defaults
+  if not (len(dv) == 1 and isinstance(dv[0], ast.Constant) and isinstance(dv[0].value, float)):
+    fail(cpath, fn, 'smoothing_factor default is not a float literal')
+  a = dv[0].value
+  helper = find_func(cpath, ctree, '_update_moving_average')
+  body = [st for st in helper.body if not (isinstance(st, ast.Expr) and isinstance(st.value, ast.Constant))]
+  if not (len(body) == 1 and isinstance(body[0], ast.Return) and ast.unparse(body[0].value) ==
+          'smoothing_factor * w + (1.0 - smoothing_factor) * update'):
+    fail(cpath, helper, 'moving average expression changed')
+  b = 1.0 - a
+  out.append(f'(* calibration_utils: smoothing_factor = {a!r}; 1.0 - smoothing_factor = {b!r} (binary64) *)')
+  out.append(f'Definition ema_old_f32_bits : Z := {f32_bits(a)}.')
+  out.append(f'Definition ema_new_f32_bits : Z := {f32_bits(b)}.')
+  out.append(f'Definition ema_old_f64_bits : Z := {f64_bits(a)}.')
+  out.append(f'Definition ema_new_f64_bits : Z := {f64_bits(b)}.')
+  return '\n'.join(out) + '\n'
+
+
 def gen_recipes(ctx):
   """Shipped recipe files as jrule-like raw data (Gen/Recipes.v)."""
   out = [HEADER, 'From VF Require Import Gen.Enums Gen.Configs.\n']
@@ -880,4 +937,5 @@ def generate(ctx):
   files['InstChecks.v'] = gen_instchecks(ctx)
   files['MatDesc.v'] = gen_matdesc(ctx)
   files['Scopes.v'] = gen_scopes(ctx)
+  files['Consts.v'] = gen_consts(ctx)
   return files
